@@ -152,6 +152,13 @@ impl Lower {
             Expr::Path(_) => Scrut::Val(e.clone()),
             Expr::Unary(u) if matches!(u.op, UnOp::Deref(_)) => match &*u.expr {
                 Expr::Path(_) => Scrut::Deref((*u.expr).clone()),
+                base if allow_tmp => {
+                    // `*<expr>`: the base reference is evaluated once into a temporary, then treated like `*path`
+                    let name = ident(&format!("k2v_scrut_{}", self.tmp));
+                    self.tmp += 1;
+                    pre.push(parse_quote! { let #name = #base; });
+                    Scrut::Deref(parse_quote! { #name })
+                }
                 _ => {
                     self.err(format!("unsupported deref scrutinee `{}`", e.to_token_stream()));
                     Scrut::Val(e.clone())
@@ -645,11 +652,13 @@ impl Markers {
             match &mut st {
                 Stmt::Expr(e, semi) => {
                     let is_loop = matches!(e, Expr::While(_) | Expr::Loop(_) | Expr::ForLoop(_));
+                    let is_while = matches!(e, Expr::While(_));
                     let k = self.n;
                     self.mark_expr(e);
                     if is_loop && (semi.is_some() || i != last || matches!(e, Expr::Verbatim(_))) {
-                        // a loop used as a statement (a `while` is always unit-typed)
-                        if semi.is_some() || i != last {
+                        // a loop used as a statement; a `while` is always unit-typed, so even in tail position
+                        // of a block a marker statement may follow it (the block's value stays `()`)
+                        if semi.is_some() || i != last || is_while {
                             after = Some(k);
                         }
                     }
@@ -903,6 +912,18 @@ fn lower_fn_parts(sig: &mut Signature, block: &mut Block, errors: &mut Vec<Strin
             mut_self = true;
         }
     }
+    // L9: a destructuring pattern in a parameter position `Pat: T` -> `arg__K: T` + `let Pat = arg__K;` as the first statement
+    let mut param_lets: Vec<Stmt> = Vec::new();
+    for (k, a) in sig.inputs.iter_mut().enumerate() {
+        if let FnArg::Typed(pt) = a {
+            if !matches!(&*pt.pat, Pat::Ident(_)) {
+                let name = ident(&format!("arg__{}", k));
+                let pat = (*pt.pat).clone();
+                param_lets.push(parse_quote! { let #pat = #name; });
+                pt.pat = Box::new(parse_quote!(#name));
+            }
+        }
+    }
     StripAttrs.visit_block_mut(block);
     if mut_self {
         SelfToThis.visit_block_mut(block);
@@ -968,7 +989,7 @@ fn lower_fn_parts(sig: &mut Signature, block: &mut Block, errors: &mut Vec<Strin
     };
     let mut ts = quote! {
         #[verifier::loop_isolation(false)]
-        pub #unsafety fn #name #ig (#inputs) #ret #wc #spec { #bs; #(#stmts)* }
+        pub #unsafety fn #name #ig (#inputs) #ret #wc #spec { #(#param_lets)* #bs; #(#stmts)* }
     };
     if !ua.aliases.is_empty() {
         ts = rename_idents(ts, &ua.aliases);
@@ -1259,10 +1280,12 @@ fn main() {
                     // nested fn items are dropped from the body, so they are not counted on the source side
                     let mut src_block = (*f.block).clone();
                     src_block.stmts.retain(|s| !matches!(s, Stmt::Item(Item::Fn(_)) | Stmt::Item(Item::Macro(_))));
-                    let a = count_ident(src_block.to_token_stream(), "return");
-                    let b = count_ident(ts.clone(), "return");
-                    if a != b {
-                        errors.push(format!("{}: translation guard: {} `return` in the source, {} after lowering", path, a, b));
+                    for kw in GUARD_KEYWORDS {
+                        let a = count_ident(src_block.to_token_stream(), kw);
+                        let b = count_ident(ts.clone(), kw);
+                        if a != b {
+                            errors.push(format!("{}: translation guard: {} `{}` in the source, {} after lowering", path, a, kw, b));
+                        }
                     }
                 }
                 out.push_str(&format!("//@@ITEM fn {} {}\n", path, name));
@@ -1302,10 +1325,13 @@ fn main() {
                                 {
                                     let mut src_block = m.block.clone();
                                     src_block.stmts.retain(|s| !matches!(s, Stmt::Item(Item::Fn(_)) | Stmt::Item(Item::Macro(_))));
-                                    let a = count_ident(src_block.to_token_stream(), "return");
-                                    let b = count_ident(flatten_tokens(ts.clone(), &mut Flatten { known: &known, path_renames: Vec::new() }), "return");
-                                    if a != b {
-                                        errors.push(format!("{}: translation guard: {} `return` in the source, {} after lowering", what, a, b));
+                                    let lowered = flatten_tokens(ts.clone(), &mut Flatten { known: &known, path_renames: Vec::new() });
+                                    for kw in GUARD_KEYWORDS {
+                                        let a = count_ident(src_block.to_token_stream(), kw);
+                                        let b = count_ident(lowered.clone(), kw);
+                                        if a != b {
+                                            errors.push(format!("{}: translation guard: {} `{}` in the source, {} after lowering", what, a, kw, b));
+                                        }
                                     }
                                 }
                                 report.push_str(&format!("method {} slice_patterns={} casts={} loops={}\n", what, st.slice_pats, st.casts, st.loops));
@@ -1406,7 +1432,11 @@ fn main() {
     }
 }
 
-/// translation guard: number of occurrences of an identifier token (used for `return`)
+/// G1 translation guard: control-flow keywords whose number of occurrences must be the same in the source body and in the lowered text
+/// (every lowering rule keeps them: `while let` -> `while`, break-with-value keeps its `break`, match arms keep their `return`s)
+const GUARD_KEYWORDS: [&str; 5] = ["return", "break", "continue", "while", "loop"];
+
+/// translation guard: number of occurrences of an identifier token
 fn count_ident(ts: TokenStream, name: &str) -> usize {
     ts.into_iter()
         .map(|tt| match tt {
